@@ -213,6 +213,54 @@ func checkC01(c *Ctx) {
 				allOK = false
 				c.bad("O3 delivery", dkey, d.Pos(), "the delta function is called more than once per counter and pass: the first delta is advanced past but only the last one can be delivered", c.describe(d))
 			}
+			// a pass drains every counter it is responsible for: the delta is taken on every path
+			// (per bucket: in every iteration of a loop that visits every bucket and is reached on
+			// every path). A pass that can skip the drain on some condition (a dirty flag cleared at
+			// the wrong moment, a cached "nothing to do") strands increments for good.
+			if dcnt.min < 1 {
+				allOK = false
+				c.bad("O3 delivery", dkey+":drain", d.Pos(), "the pass can skip taking the delta of this counter (the call is conditional): increments recorded while the condition is stale are never delivered", c.describe(d))
+			}
+			if lp != nil {
+				full := false
+				for _, fl := range fullIndexLoops(fn) {
+					if fl.loop.Header != lp.Header {
+						continue
+					}
+					if f, base := loadedField(canon(fl.lenArg)); f != nil && base != nil && len(fn.Params) > 0 && canon(base) == ssa.Value(fn.Params[0]) {
+						full = true
+					}
+				}
+				exitsOK := true
+				for b := range lp.Blocks {
+					if b == lp.Header {
+						continue
+					}
+					for _, sc := range b.Succs {
+						if !lp.Blocks[sc] {
+							exitsOK = false
+						}
+					}
+				}
+				skips := false
+				if e := entryInstr(fn); e != nil {
+					h0 := lp.Header.Instrs[0]
+					if esc := reachAvoiding(e, true, isReturn, func(i ssa.Instruction) bool { return i == h0 }); esc != nil {
+						skips = true
+					}
+				}
+				if !full || !exitsOK || skips {
+					allOK = false
+					why := "the per-bucket loop does not visit every bucket of the receiver"
+					switch {
+					case skips:
+						why = "the pass can return without entering the per-bucket loop (early return on some condition): samples counted while that condition is stale are never delivered"
+					case !exitsOK:
+						why = "the per-bucket loop can be left early: later buckets are not drained"
+					}
+					c.bad("O3 delivery", dkey+":drain", d.Pos(), why, c.describe(d))
+				}
+			}
 			// on the delta != 0 edge some delivery must follow before the pass over this counter ends
 			// (exhaustive switches over the histogram type are recognised)
 			var after ssa.Instruction
